@@ -18,7 +18,9 @@ def main():
             print(log[-3000:])
         ok, out = vlib.build()
         print(out[-3000:])
-        sys.exit(0 if ok else 1)
+        if not ok:
+            print("setup: some files did not build; the checks whose cone contains them will report it (proof gate)")
+        sys.exit(0)
     if a[0] == "replay":
         data = json.load(open(a[1]))
         prop = data["property"]
